@@ -1,5 +1,3 @@
-//go:build verif_c13
-
 package harness
 
 import (
